@@ -6,6 +6,7 @@ import TarpcModel.Driver.C15Codec
 import TarpcModel.Driver.C15Json
 import TarpcModel.Driver.C15Stream
 import TarpcModel.Driver.C16
+import TarpcModel.Driver.C16Stub
 import TarpcModel.Driver.C17
 import TarpcModel.Driver.C19
 import TarpcModel.Driver.Chain
@@ -29,6 +30,7 @@ def familyOf (name : String) : Option Family :=
   | "c15frame" => some c15frame
   | "c15e2e" => some c15e2e
   | "c16dec" => some c16dec
+  | "c16stub" => some c16stub
   | "c17camel" => some c17camel
   | "c17svc" => some c17svc
   | "c19" => some c19
